@@ -166,7 +166,13 @@ pub fn iso_case(ctx: &Ctx, input: &Input, want: Area) -> CaseResult {
                 for (i, e) in da.elems.iter().enumerate() {
                     if let crate::decode::ElemMode::Active { table, .. } = &e.mode {
                         let i = i as u32;
-                        if iso2.tables.fwd.contains_key(table) && !iso2.elems.fwd.contains_key(&i) && !iso2.ambiguous.contains(&("element", i)) {
+                        // (a table the bijection placed by first fit among
+                        // identical unreferenced candidates is no witness)
+                        if iso2.tables.fwd.contains_key(table)
+                            && !iso2.ambiguous.contains(&("table", *table))
+                            && !iso2.elems.fwd.contains_key(&i)
+                            && !iso2.ambiguous.contains(&("element", i))
+                        {
                             return Err(Failure::new(
                                 "after-gc:active-element-segment-of-a-surviving-table-dropped",
                                 format!("after the GC pass: table {} survives (as {}), its active element segment {} does not [{}]", table, iso2.tables.fwd[table], i, p.origin),
